@@ -1,5 +1,5 @@
 (** C05 — basic lemmas: checked vector access, reset. *)
-From Coq Require Import List Arith Bool Lia.
+From Coq Require Import List Arith NArith Bool Lia.
 From RlibV Require Import C05.Model C05.Spec.
 Import ListNotations.
 
@@ -53,3 +53,27 @@ Proof.
   rewrite fill_all by apply resize_length. cbn [bind].
   unfold new. now rewrite map_id, map_const_seq.
 Qed.
+
+(** the refused buffer request: [reset] panics, nothing is written *)
+Lemma alloc_overflow_spec n : alloc_overflow n = true <-> (isize_max < n * 8)%N.
+Proof. unfold alloc_overflow. apply N.ltb_lt. Qed.
+
+Lemma alloc_overflow_pow n : alloc_overflow n = (1152921504606846976 <=? n)%N.
+Proof.
+  unfold alloc_overflow, isize_max.
+  destruct (N.ltb_spec 9223372036854775807 (n * 8)), (N.leb_spec 1152921504606846976 n); auto; lia.
+Qed.
+
+Lemma reset_alloc_overflow s n : (isize_max < n * 8)%N ->
+  step s (Reset n) = Panic /\ panic_state s (Reset n) = s.
+Proof.
+  intros H. apply alloc_overflow_spec in H. cbn [step panic_state]. unfold reset_call. rewrite H. auto.
+Qed.
+
+Lemma reset_fits s n : (n * 8 <= isize_max)%N -> step s (Reset n) = Ok (new (N.to_nat n), RU).
+Proof.
+  intros H. cbn [step]. unfold reset_call.
+  destruct (alloc_overflow n) eqn:E; [apply alloc_overflow_spec in E; lia|].
+  now rewrite reset_is_new.
+Qed.
+
